@@ -5,5 +5,6 @@ from . import runloop
 def run(ctx, rep):
     runloop.r07a(ctx, rep)
     runloop.r07b(ctx, rep)
+    runloop.r_stack_monotone(ctx, rep, "R07d")
     rep.not_decided += ["that the global definitions completed before a failure are the right ones",
                         "memory retained through the environment/accumulator registers of a failed evaluation (bounded: one frame)"]
